@@ -6,7 +6,6 @@ package main
 
 import (
 	"fmt"
-	"sort"
 	"strings"
 	"time"
 
@@ -28,17 +27,24 @@ const (
 var kindName = []string{"ret", "pause", "panic", "pause-panic"}
 
 type ctxT struct {
-	inside  int64
-	done    []int64
-	handled []string
+	inside   int64
+	done     []int64
+	handled  []any // values received by the handler installed first
+	handled2 []any // values received by the handler installed after the first Wait (late scenarios)
+	vals     []any // the value task i panics with: distinct pointers, compared by identity
 }
+
+type boom struct{ task int }
+
+func (b *boom) String() string { return fmt.Sprintf("boom%d", b.task) }
 
 type cfg struct {
 	limit   int // argument to NewLimiter
 	tasks   []int
-	batch2  int  // number of pausing tasks in the second batch (0 = none)
+	batch2  int // number of pausing tasks in the second batch (0 = none)
 	handler bool
 	timed   bool // the first wait is Wait(timeout): the timer is a virtual thread, it may fire at any moment
+	late    bool // the handler is installed after the first Go, and replaced after the first Wait (the second batch then starts with a panicking task)
 }
 
 func (c cfg) eff() int {
@@ -60,6 +66,9 @@ func (c cfg) name() string {
 	if c.timed {
 		h += "/timed-wait-first"
 	}
+	if c.late {
+		h += "/handler-set-late-and-replaced"
+	}
 	return fmt.Sprintf("limit%d/%s/batch2=%d/%s", c.limit, strings.Join(ks, ","), c.batch2, h)
 }
 
@@ -71,9 +80,13 @@ func scenario(c cfg) sched.Spec {
 		NoRace: true, // goz.go has no plain shared state; harness counters are shim atomics
 		Build: func(x *core.Exec) any {
 			st := &ctxT{done: make([]int64, len(c.tasks)+c.batch2)}
+			for i := range st.done {
+				st.vals = append(st.vals, &boom{i})
+			}
 			l := goz.NewLimiter(c.limit)
-			if c.handler {
-				l.SetPanicHandler(func(v any) { st.handled = append(st.handled, fmt.Sprint(v)) })
+			h1 := func(v any) { st.handled = append(st.handled, v) }
+			if c.handler && !c.late {
+				l.SetPanicHandler(h1)
 			}
 			body := func(i, kind int, second bool) func() {
 				return func() {
@@ -90,7 +103,7 @@ func scenario(c cfg) sched.Spec {
 					vatomic.AddInt64(&st.inside, -1)
 					vatomic.AddInt64(&st.done[i], 1)
 					if kind == pnc || kind == pausePnc {
-						panic(fmt.Sprintf("boom%d", i))
+						panic(st.vals[i])
 					}
 				}
 			}
@@ -100,6 +113,9 @@ func scenario(c cfg) sched.Spec {
 					t.Op("Go", i, func() any { l.Go(body(i, k, false)); return nil })
 					if x.Failed() {
 						return
+					}
+					if c.late && i == 0 {
+						l.SetPanicHandler(h1) // configured after the first submission: later submissions use it
 					}
 				}
 				if c.timed {
@@ -120,9 +136,16 @@ func scenario(c cfg) sched.Spec {
 					}
 				}
 				if c.batch2 > 0 {
+					if c.late {
+						l.SetPanicHandler(func(v any) { st.handled2 = append(st.handled2, v) })
+					}
 					for j := 0; j < c.batch2; j++ {
 						i := len(c.tasks) + j
-						t.Op("Go", i, func() any { l.Go(body(i, pauseRet, true)); return nil })
+						kind := pauseRet
+						if c.late && j == 0 {
+							kind = pausePnc
+						}
+						t.Op("Go", i, func() any { l.Go(body(i, kind, true)); return nil })
 						if x.Failed() {
 							return
 						}
@@ -153,23 +176,28 @@ func scenario(c cfg) sched.Spec {
 				return &core.Failure{Sig: "inside-counter", What: fmt.Sprintf("inside = %d at the end", st.inside)}
 			}
 			if c.handler {
-				var want []string
+				var want, want2 []any
 				for i, k := range c.tasks {
 					if k == pnc || k == pausePnc {
-						want = append(want, fmt.Sprintf("boom%d", i))
+						want = append(want, st.vals[i])
 					}
 				}
-				got := append([]string(nil), st.handled...)
-				sort.Strings(got)
-				sort.Strings(want)
-				if strings.Join(got, ",") != strings.Join(want, ",") {
-					return &core.Failure{Sig: "handler-values", What: fmt.Sprintf("panic handler received %v, want %v", got, want)}
+				if c.late && c.batch2 > 0 {
+					want2 = append(want2, st.vals[len(c.tasks)])
+				}
+				if why := sameValues(st.handled, want); why != "" {
+					return &core.Failure{Sig: "handler-values", What: "the panic handler configured when the functions were submitted " + why}
+				}
+				if why := sameValues(st.handled2, want2); why != "" {
+					return &core.Failure{Sig: "handler-values|replaced-handler", What: "the panic handler installed after the first Wait " + why}
 				}
 			}
 			return nil
 		},
 	}
 	if c.batch2 > c.eff() {
+		// `limit` functions are inside at once only in schedules with limit-1 switches away from a pausing function
+		sc.AfterAllMinBound = c.eff() - 1
 		sc.AfterAll = func() *core.Failure {
 			if maxInside2 < eff {
 				return &core.Failure{Sig: "slots-not-returned", What: fmt.Sprintf("over all schedules of the second batch at most %d functions ran concurrently although the limit is %d: slots were not given back", maxInside2, eff)}
@@ -178,6 +206,91 @@ func scenario(c cfg) sched.Spec {
 		}
 	}
 	return sched.Spec{Sc: sc, Quick: 2, Thorough: 3}
+}
+
+// twoLimiters: A and B are independent objects — functions submitted to one never occupy a slot
+// of, are never waited for by, and never release the other (state shared between limiters).
+func twoLimiters(limit int) sched.Spec {
+	type st2 struct {
+		inside [2]int64
+		done   [2][]int64
+	}
+	n := limit + 1
+	sc := sched.Scenario{
+		Name:   fmt.Sprintf("two-limiters/limit%d", limit),
+		NoRace: true,
+		Build: func(x *core.Exec) any {
+			st := &st2{}
+			st.done[0], st.done[1] = make([]int64, n), make([]int64, n)
+			ls := [2]*goz.Limiter{goz.NewLimiter(limit), goz.NewLimiter(limit)}
+			body := func(w, i int) func() {
+				return func() {
+					if k := vatomic.AddInt64(&st.inside[w], 1); k > int64(limit) {
+						x.FailNow("limit-exceeded", fmt.Sprintf("%d functions of one limiter are inside their body at the same time, limit %d", k, limit))
+					}
+					core.Pause()
+					vatomic.AddInt64(&st.inside[w], -1)
+					vatomic.AddInt64(&st.done[w][i], 1)
+				}
+			}
+			for w := 0; w < 2; w++ {
+				w := w
+				x.Spawn(fmt.Sprintf("submitter%d", w), func(t *core.Thread) {
+					for i := 0; i < n; i++ {
+						i := i
+						t.Op("Go", w*10+i, func() any { ls[w].Go(body(w, i)); return nil })
+						if x.Failed() {
+							return
+						}
+					}
+					t.Op("Wait", w, func() any { ls[w].Wait(); return nil })
+					if x.Failed() {
+						return
+					}
+					for i := 0; i < n; i++ {
+						if d := vatomic.LoadInt64(&st.done[w][i]); d != 1 {
+							x.FailNow("wait-returned-early-or-task-lost", fmt.Sprintf("Wait() of limiter %d returned but its function %d has completed %d times (want exactly 1)", w, i, d))
+							return
+						}
+					}
+				})
+			}
+			return st
+		},
+		Check: func(x *core.Exec, ctx any) *core.Failure {
+			st := ctx.(*st2)
+			for w := 0; w < 2; w++ {
+				for i, d := range st.done[w] {
+					if d != 1 {
+						return &core.Failure{Sig: "task-not-run-exactly-once", What: fmt.Sprintf("function %d of limiter %d ran %d times", i, w, d)}
+					}
+				}
+			}
+			return nil
+		},
+	}
+	return sched.Spec{Sc: sc, Quick: 3 - limit, Thorough: 4 - limit}
+}
+
+// sameValues compares by identity (the handler must get the very value the function panicked with).
+func sameValues(got, want []any) string {
+	used := make([]bool, len(got))
+	for _, w := range want {
+		found := false
+		for i, g := range got {
+			if !used[i] && g == w {
+				used[i], found = true, true
+				break
+			}
+		}
+		if !found {
+			return fmt.Sprintf("received %v, want exactly the values %v (the value of %v is missing or was replaced by another value)", got, want, w)
+		}
+	}
+	if len(got) != len(want) {
+		return fmt.Sprintf("received %d values %v, want the %d values %v", len(got), got, len(want), want)
+	}
+	return ""
 }
 
 func main() {
@@ -220,7 +333,7 @@ func main() {
 				if eff >= 2 && k == 2 {
 					th = 3
 				}
-				add(cfg{limit, tasks, b2, true, false}, q, th)
+				add(cfg{limit: limit, tasks: tasks, batch2: b2, handler: true}, q, th)
 			}
 		}
 		if limit < 1 {
@@ -235,18 +348,31 @@ func main() {
 		}
 		for k := eff + 1; k <= eff+2 && k <= 4; k++ {
 			for _, cv := range cover {
-				add(cfg{limit, cv[:k], 0, true, false}, 2, 3)
+				add(cfg{limit: limit, tasks: cv[:k], handler: true}, 2, 3)
 			}
 		}
-		// Wait(timeout) first: timer and waiter goroutine are virtual threads
-		add(cfg{limit, []int{pauseRet}, eff + 1, true, true}, 2, 3)
+		// Wait(timeout) first: timer and waiter goroutine are virtual threads. The search continues
+		// past the recorded known finding (helper goroutine left in WaitGroup.Wait), which makes these
+		// the largest scenarios: the quick bound shrinks with the limit.
+		tq := []int{0, 2, 2, 1}[eff]
+		add(cfg{limit: limit, tasks: []int{pauseRet}, batch2: eff + 1, handler: true, timed: true}, tq, 3)
 		if eff <= 2 {
-			add(cfg{limit, []int{pauseRet, pausePnc}, eff + 1, true, true}, 2, 3)
+			add(cfg{limit: limit, tasks: []int{pauseRet, pausePnc}, batch2: eff + 1, handler: true, timed: true}, 3-eff, 3)
 		}
 		// nil handler (default printing path), with and without panics
-		add(cfg{limit, []int{pnc, pauseRet}[:min(2, eff+1)], eff + 1, false, false}, 2, 3)
-		add(cfg{limit, []int{pausePnc}, 0, false, false}, 2, U)
+		add(cfg{limit: limit, tasks: []int{pnc, pauseRet}[:min(2, eff+1)], batch2: eff + 1}, 2, 3)
+		add(cfg{limit: limit, tasks: []int{pausePnc}}, 2, U)
+		// handler configured after the first Go, replaced after the first Wait
+		add(cfg{limit: limit, tasks: []int{ret, pnc}, batch2: 2, handler: true, late: true}, 2, 3)
+		add(cfg{limit: limit, tasks: []int{pauseRet, pausePnc, pnc}, batch2: 1, handler: true, late: true}, 2, 3)
 	}
+	// two limiters in use at the same time: each counts and waits for its own functions only
+	for _, lim := range []int{1, 2} {
+		specs = append(specs, twoLimiters(lim))
+	}
+	// a limit above the default
+	add(cfg{limit: 4, tasks: []int{ret}, batch2: 5, handler: true}, 1, 3)
+	add(cfg{limit: 4, tasks: []int{pauseRet, pausePnc, pauseRet, pnc, pauseRet}, handler: true}, 1, 2)
 	sched.Main("C19", specs,
 		[]string{
 			"small scope: limits 1,2,3 (and 0,-1 -> 3), up to limit+2 (<= 4) submitted functions of four kinds (return, stay inside for a while, panic, stay then panic), a second batch of limit+1 functions after the first Wait",
